@@ -1,0 +1,40 @@
+//go:build verif
+// +build verif
+
+package vbft
+
+import (
+	vconfig "github.com/polynetwork/poly/consensus/vbft/config"
+	"github.com/polynetwork/poly/core/types"
+)
+
+// VerifSelectionSeed exposes getParticipantSelectionSeed for a ledger block carrying a VBFT consensus payload.
+func VerifSelectionSeed(block *types.Block) (vconfig.VRFValue, error) {
+	blk, err := initVbftBlock(block)
+	if err != nil {
+		return vconfig.VRFValue{}, err
+	}
+	return getParticipantSelectionSeed(blk), nil
+}
+
+// VerifBuildParticipantConfig runs the real buildParticipantConfig of a bare Server (index self) for round blkNum
+// on top of the given previous block and chain config.
+func VerifBuildParticipantConfig(self uint32, blkNum uint32, prev *types.Block, chain *vconfig.ChainConfig) (vconfig.VRFValue, []uint32, []uint32, []uint32, error) {
+	blk, err := initVbftBlock(prev)
+	if err != nil {
+		return vconfig.VRFValue{}, nil, nil, nil, err
+	}
+	srv := &Server{Index: self}
+	srv.stateMgr = &StateMgr{server: srv}
+	cfg, err := srv.buildParticipantConfig(blkNum, blk, chain)
+	if err != nil {
+		return vconfig.VRFValue{}, nil, nil, nil, err
+	}
+	return cfg.Vrf, cfg.Proposers, cfg.Endorsers, cfg.Committers, nil
+}
+
+// VerifCalcParticipantPeersWith exposes calcParticipantPeers for a given seed with the proposers already chosen
+// (the endorser and committer ranges skip the leading proposers).
+func VerifCalcParticipantPeersWith(vrf vconfig.VRFValue, chain *vconfig.ChainConfig, proposers []uint32, start, end int) []uint32 {
+	return calcParticipantPeers(&BlockParticipantConfig{Vrf: vrf, ChainConfig: chain, Proposers: proposers}, chain, start, end)
+}
